@@ -34,13 +34,17 @@ import time
 import traceback
 
 HERE = os.path.dirname(os.path.abspath(__file__))
+# The code under test is whatever `import cherrypy` finds: /repo (editable install in /venv) unless
+# CHERRYPY_REPO points at a scratch worktree (used only for self-tests against seeded changes).
+if os.environ.get('CHERRYPY_REPO') and os.environ['CHERRYPY_REPO'] != '/repo':
+    sys.path.insert(0, os.environ['CHERRYPY_REPO'])
 VERIF = os.path.dirname(HERE)
 LEAN = os.path.join(VERIF, 'lean')
 REPO = os.environ.get('CHERRYPY_REPO', '/repo')
 EVIDENCE = os.path.join(VERIF, 'evidence')
 REPLAYS = os.path.join(EVIDENCE, 'replays')
 CORPUS = os.path.join(VERIF, 'corpus')
-KNOWN = os.path.join(VERIF, 'known_findings.json')
+FINDINGS = os.path.join(VERIF, 'findings')
 ALLOWED_AXIOMS = {'propext', 'Classical.choice', 'Quot.sound'}
 FORBIDDEN = re.compile(
     r'\b(sorry|admit|native_decide|bv_decide|implemented_by|unsafe)\b|^\s*axiom\s|maxHeartbeats\s+0',
@@ -255,10 +259,12 @@ class Driver:
 
 
 def load_known(prop):
-    if not os.path.exists(KNOWN):
+    """Entries of findings/<prop>.json (committed; never written at run time)."""
+    path = os.path.join(FINDINGS, prop + '.json')
+    if not os.path.exists(path):
         return []
-    data = json.load(open(KNOWN))
-    return [e for e in data.get('findings', []) if e.get('property') == prop]
+    data = json.load(open(path))
+    return [e for e in data.get('findings', []) if e.get('property', prop) == prop]
 
 
 class Ctx:
